@@ -88,6 +88,10 @@ def check_nndvi(scn):
         batches = [scn["creep"] * i + rng.randn(30, 2) for i in range(nb + 1)]
     if scn.get("lattice"):
         batches = [np.round(b) for b in batches]
+    if scn.get("intref"):
+        # the reference is stored in another dtype (counts, float32) than the float64 batches that follow: every batch is
+        # compared as supplied
+        batches[0] = np.round(batches[0]).astype([np.int64, np.int32, np.float32, np.int16][seed % 4])
     d = NNDVI(k_nn=k, sampling_times=st, alpha=alpha)
     d.set_reference(batches[0])
     ref = np.array(batches[0])
@@ -178,6 +182,16 @@ def run(tier, seed, repo, focus=None):
                 res.count(key=repr(scn), nontrivial=True, n=7, check="NNDVI decision rule")
                 if msg:
                     res.violation("NNDVI: " + msg, REPLAY % dict(verif=VERIF, scn=scn, which="nndvi"), known)
+    for s in range(8 if quick else 40):
+        scn = {"seed": seed + s, "batches": 6, "k": [3, 2, 4][s % 3], "sampling_times": [30, 50, 20][s % 3], "alpha": [0.1, 0.05, 0.2][s % 3],
+               "intref": True}
+        try:
+            msg = check_nndvi(scn)
+        except Exception as e:
+            msg = "%s: %s" % (type(e).__name__, e)
+        res.count(key=repr(scn), nontrivial=True, n=6, check="NNDVI decision rule (reference of another dtype)")
+        if msg:
+            res.violation("NNDVI: " + msg, REPLAY % dict(verif=VERIF, scn=scn, which="nndvi"), known)
     res.sample({"check": "NN space partitioner", "scenario": {"n1": 3, "n2": 1, "k": 2, "kind": "cont"}})
     # the decisions are about the observations that were SUPPLIED: a caller that re-uses / overwrites its buffers after each
     # call must get the same outputs as one that passes private copies (the aliasing scenarios of C15, run here for NNDVI)
